@@ -144,6 +144,9 @@ def prop(spec, rec):
         Mj = m.overlay(merged, s2.pilot_signals.shape[1])
         require(Mj.shape[1] <= s2.pilot_signals.shape[1] and np.array_equal(s2.pilot_signals, Mj[:, : s2.pilot_signals.shape[1]]), "pilot_matrix_after_json_resume", lambda: "after a dump/load at period %d the pilot matrix\n%r\ndiffers from the overlay of all submitted schedules\n%r" % (spec["json_at"], s2.pilot_signals, Mj))
         require(np.array_equal(s2.pilot_signals, P), "pilot_matrix_after_json_resume_vs_uninterrupted", "pilot matrix after dump/load/resume differs from the uninterrupted run")
+        # ... and the restored stations must really have been SENT those pilots: the cars on them
+        # draw exactly what they drew in the uninterrupted run (same batteries, same noise draws)
+        require(s2.charging_rates.shape == sim.charging_rates.shape and np.array_equal(s2.charging_rates, sim.charging_rates), "applied_pilot_after_json_resume", lambda: "after a dump/load at period %d the recorded pilots equal the schedules but the stations drew\n%r\ninstead of\n%r" % (spec["json_at"], s2.charging_rates, sim.charging_rates))
         labels.add("json_resume")
 
     # metamorphic: entry order of the mappings is irrelevant
